@@ -8,26 +8,43 @@ P = dict(
               'long-list histories (10^4..5*10^4 buffers on one list) whose list-length dependent operations (clearCache, clearAll, destruction, ~GlobalSimpleStringCache, '
               'releases from the interior of the long list) run on a thread with a 128 KB stack and a guard region: a fault in the guard region is recorded as '
               'stack-exhausted:<operation>:<list> (the crash the statement excludes, scaled down from the 10^5..10^6 buffers it takes on an 8 MB stack); '
-              'the deepest frame seen from the underlying allocator is recorded (unchanged code: below 4 KB whatever the length)',
+              'the deepest frame seen from the underlying allocator is recorded (unchanged code: below 4 KB whatever the length); '
+              're-entrant histories: the recording underlying allocator (alloc and free callbacks) and the output sink that receives the unknown-buffer warning '
+              '(PlatformSpecificFPuts seam outside a test run, a StringBufferTestOutput subclass inside a test run of the harness\'s own registry) issue ONE nested '
+              'cache operation (request | release of a buffer the script holds | release of a foreign pointer; depth 1) while the cache is inside alloc / dealloc / '
+              'printing; the shadow model applies the nested operation at the point where it happens and the same clauses are judged; blocks and buffers obtained or '
+              'returned inside a nested operation carry the position (what the cache was doing) in their violation keys; returned blocks are held but not poisoned there, '
+              'so a list that keeps a returned block shows up in the ledger (second return) with the position in the key',
     rule='cases: generated histories of 10..300 (thorough: ..600) alloc/dealloc/clearCache/clearAll operations with sizes on and around 0/32/64/96/128/256/1024, releases in arbitrary order with the true size, another size of the same class, '
          'a size of another class, of foreign heap/static/stack/interior pointers and repeated releases; every request size 0..1100 in a fixed history shape and every (true size, release size) pair inside one cached class are enumerated completely; '
          'GlobalSimpleStringCache lifetimes with SimpleString construction/copy/assign/append/substring/format/destroy traffic; '
          'long-list histories: list kind (used list of a class | free list of a class | uncached list | all three) x interface (cache | SimpleStringCacheAllocator | '
          'GlobalSimpleStringCache::getAllocator) x clearing operation in the middle (none | clearCache | clearAll) enumerated by the case index, 10000..20000 (thorough: ..50000) '
          'buffers on the long list, 0..5 releases from its interior, noise allocations, then release-all/clearCache/clearAll/destroy or clearAll/destroy or ~GlobalSimpleStringCache. '
+         're-entrant histories: every position the cache calls out from during a request or release (alloc on a miss in each cached class, alloc of an uncached size, '
+         'release of the newest / an older uncached buffer: callback 0 and 1 each; first release of an unknown buffer: the print) x kind of nested operation '
+         '(request on the same list | in another class, miss | uncached | in another class, hit; release of the newest | an older buffer of the same list | of a buffer of another list; '
+         'release of an unknown buffer) x interface (cache | SimpleStringCacheAllocator) x output (console seam | test run) enumerated completely in a fixed history shape (576 cases), '
+         'plus generated histories of 6..120 (thorough: ..200) operations with an exact generator-side model of the free lists in which 30..100 % of the operations that reach a callback carry a nested operation. '
          'Non-trivial = a history that releases a non-head block of a used list and later allocates again in the same size class; distinct by the operation sequence',
-    floor=dict(quick=40000, thorough=350000),
+    floor=dict(quick=45000, thorough=350000),
     counter_floor=dict(
         quick={'release_interior_class_32': 5000, 'release_interior_class_256': 5000, 'alloc_reused': 50000, 'unknown_release_first': 2000, 'unknown_release_after_warning': 5000, 'op_clearCache': 5000, 'op_clearAll': 10000, 'global_cache_lifetimes': 8000,
                'long_list_histories': 90, 'small_stack_clearCache_with_free_list_of_10000_or_more': 4, 'small_stack_clearAll_with_free_list_of_10000_or_more': 3,
                'small_stack_clearAll_with_used_list_of_10000_or_more': 20, 'small_stack_clearAll_with_uncached_list_of_10000_or_more': 10,
                'small_stack_global_destroy_with_used_list_of_10000_or_more': 10, 'small_stack_global_destroy_with_free_list_of_10000_or_more': 5,
-               'small_stack_global_destroy_with_uncached_list_of_10000_or_more': 5, 'small_stack_release_with_used_list_of_10000_or_more': 50},
+               'small_stack_global_destroy_with_uncached_list_of_10000_or_more': 5, 'small_stack_release_with_used_list_of_10000_or_more': 50,
+               'reentrant_matrix_cases': 576, 'reentrant_histories': 10000, 'nested_operations_executed': 100000, 'nested_operations_inside_a_test_run': 30000, 'nested_operations_via_adaptor': 20000,
+               'nested_request_same_list_in_dealloc:uncached:newest': 10000, 'nested_request_same_list_in_alloc:cached': 8000, 'nested_request_same_list_in_alloc:uncached': 15000,
+               'nested_release_same_list_newest_in_alloc:uncached': 3000, 'nested_release_same_list_older_in_dealloc:uncached:older': 1200, 'nested_foreign_release_in_warning-print': 200},
         thorough={'release_interior_class_32': 100000, 'release_interior_class_256': 100000, 'alloc_reused': 1000000, 'unknown_release_first': 40000, 'unknown_release_after_warning': 100000, 'op_clearCache': 100000, 'op_clearAll': 200000, 'global_cache_lifetimes': 100000,
                   'long_list_histories': 700, 'small_stack_clearCache_with_free_list_of_10000_or_more': 30, 'small_stack_clearAll_with_free_list_of_10000_or_more': 30,
                   'small_stack_clearAll_with_used_list_of_10000_or_more': 200, 'small_stack_clearAll_with_uncached_list_of_10000_or_more': 100,
                   'small_stack_global_destroy_with_used_list_of_10000_or_more': 100, 'small_stack_global_destroy_with_free_list_of_10000_or_more': 50,
-                  'small_stack_global_destroy_with_uncached_list_of_10000_or_more': 50, 'small_stack_release_with_used_list_of_10000_or_more': 500},
+                  'small_stack_global_destroy_with_uncached_list_of_10000_or_more': 50, 'small_stack_release_with_used_list_of_10000_or_more': 500,
+                  'reentrant_matrix_cases': 576, 'reentrant_histories': 150000, 'nested_operations_executed': 1000000, 'nested_operations_inside_a_test_run': 300000, 'nested_operations_via_adaptor': 200000,
+                  'nested_request_same_list_in_dealloc:uncached:newest': 100000, 'nested_request_same_list_in_alloc:cached': 80000, 'nested_request_same_list_in_alloc:uncached': 150000,
+                  'nested_release_same_list_newest_in_alloc:uncached': 30000, 'nested_release_same_list_older_in_dealloc:uncached:older': 12000, 'nested_foreign_release_in_warning-print': 2000},
     ),
     max_resumes=6,      # a mutant that corrupts a list kills (or spins) almost every case: six deaths per process are enough evidence
     stall_s=120, confirm_s=40,   # a spinning cache is normally ended by the harness itself (5 s CPU budget per case, key no-termination:*)
@@ -39,6 +56,9 @@ P = dict(
         'default 8 MB stack with 64 times as many; the unchanged operations need less than 4 KB there (measured, counters small_stack_peak_depth_*), so the small stack itself cannot cause an alarm. '
         'Only a fault inside the guard region below that stack is keyed stack-exhausted:*; any other fault is handed back to the sanitizer',
         'the harness runs with cpputest\'s leak-detecting operator new/delete switched off (turnOffNewDeleteOverloads): its own containers would otherwise be tracked by the global detector; the string cache does not use it',
+        're-entrancy is bounded to depth 1 and to the positions inside alloc / dealloc / the print of the warning; a request or release that arrives while clearCache / '
+        'clearAllIncludingCurrentlyUsedMemory / a destructor is returning blocks is not generated: the statement speaks of the state "after the cache is cleared", an operation in the middle of a clear is neither before nor after it',
+        'in the re-entrant sections the position named in a key (…nested-in=dealloc:uncached:newest) is the position by the shadow model',
         'destruction is judged on GlobalSimpleStringCache and on SimpleStringInternalCache after clearAll; destroying a SimpleStringInternalCache that still holds blocks is only counted unless C18_DESTROY_STRICT is set',
     ],
 )
